@@ -17,4 +17,6 @@ cp seeded/notes.md $OUT/notes.md 2>/dev/null
 echo "$CMD" > $OUT/demo_cmd.txt
 mkdir -p $OUT/demo
 git status --porcelain | grep '^??' | awk '{print $2}' | grep -v '^seeded/' | while read f; do mkdir -p $OUT/demo/$(dirname $f); cp -r $f $OUT/demo/$f; done
+# a demonstration the sub-agent put under seeded/ itself (anything but the four deliverable files)
+for f in $(ls seeded | grep -v -e '^patch.diff$' -e '^notes.md$' -e '^demo_cmd.txt$'); do mkdir -p $OUT/demo/seeded; cp -r seeded/$f $OUT/demo/seeded/; done
 echo "build+tests=$BT with_change=$W without_change=$WO"
